@@ -411,7 +411,9 @@ def rule_z1(rep, src):
             elif srcs == "F" and s in PRESERVED[v]:
                 rep.violation("Z1", key, "%s preserves every %s row, but the %s type is narrowed by the ON predicate: an unmatched row's value is outside it" % (v, SIDE[s], SIDE[s]), where)
     # ---- filtered_schemas
-    h = own_fn(src, "JoinOperator", "filtered_schemas")
+    from .canon import canon_view as _cvz1
+
+    h = _cvz1(own_fn(src, "JoinOperator", "filtered_schemas"), src, keep_lets={"left_schema", "right_schema", "filtered_data_type", "data_type"})  # a private per-side helper (`filtered_side_schema(&dt, Join::left_name(), left)`) is read through
     rels = param_names(h, "Relation")
     if rels[:2] != ["left", "right"]:
         raise Anchor("JoinOperator::filtered_schemas: expected parameters (left, right)")
